@@ -149,6 +149,9 @@ Proof. destruct u as [|t r]; simpl; [auto|]. intros ->. reflexivity. Qed.
 Lemma C_head_check k u : C_head k u -> check k u = true.
 Proof. destruct u as [|t r]; simpl; [contradiction|]. intros <-. apply tkind_eqb_refl. Qed.
 
+Lemma pb_ret0 {A B} (a : A) r (k : A -> list token -> pres B) : pbind (POk a r []) k = k a r.
+Proof. simpl. destruct (k a r); reflexivity. Qed.
+
 (** * The clauses *)
 
 (** "with enough fuel [run] succeeds on [x] without diagnostics and leaves [u]" *)
@@ -160,9 +163,26 @@ Definition OKv {A} (ne : bool) (C : list token -> Prop) (run : nat -> list token
   exists p, ts = p ++ r0 /\ (ne = true -> p <> []) /\
     forall g u, f <= g -> samehead r0 u \/ C u -> run g (p ++ u) = POk a u [].
 
+(** "no clean success": a diagnostic was issued, or the run is out of fuel *)
+Definition notclean {A} (r : pres A) : Prop := match r with POk _ _ [] => False | _ => True end.
+
+Lemma notclean_bind_l {A B} (r : pres A) (k : A -> list token -> pres B) : notclean r -> notclean (pbind r k).
+Proof.
+  destruct r as [a rest [|d ds]| ds|]; simpl; auto; try contradiction.
+  intros _. destruct (k a rest); simpl; auto.
+Qed.
+Lemma notclean_bind_r {A B} (a : A) rest (k : A -> list token -> pres B) :
+  notclean (k a rest) -> notclean (pbind (POk a rest []) k).
+Proof. rewrite pb_ret0. auto. Qed.
+
+(** the diagnostic position is exact: [pre] followed by anything that starts like
+    [rem] never parses cleanly *)
+Definition NC {A} (run : nat -> list token -> pres A) (f : nat) (pre rem : list token) : Prop :=
+  forall g rem', f <= g -> samehead rem rem' -> notclean (run g (pre ++ rem')).
+
 Definition FDv {A} (C : list token -> Prop) (run : nat -> list token -> pres A)
-    (ts : list token) (d : pdiag) : Prop :=
-  exists pre rem, ts = pre ++ rem /\ d = diag_at rem (pd_kind d) /\
+    (f : nat) (ts : list token) (d : pdiag) : Prop :=
+  exists pre rem, ts = pre ++ rem /\ d = diag_at rem (pd_kind d) /\ NC run f pre rem /\
     (pre <> [] ->
        (lt = true /\ pd_kind d = PTooManyParams) \/ BadAssign pre \/
        exists w, online w /\ forall u, C u -> EvOk run (pre ++ w ++ u) u).
@@ -172,9 +192,9 @@ Definition Via {A} (ne : bool) (C : list token -> Prop) (run : nat -> list token
   match run f ts with
   | PFuel => True
   | POk a r0 [] => OKv ne C run f ts a r0
-  | POk _ _ (d :: _) => FDv C run ts d
+  | POk _ _ (d :: _) => FDv C run f ts d
   | PErr [] => False
-  | PErr (d :: _) => FDv C run ts d
+  | PErr (d :: _) => FDv C run f ts d
   end.
 
 (** completions from nothing *)
@@ -200,9 +220,9 @@ Proof.
   unfold Via. destruct (run f ts) as [a r0 [|d ds]| [|d ds]|]; auto. apply OKv_weaken.
 Qed.
 
-Lemma FDv_sub (C C2 : list token -> Prop) run ts d : (forall u, C2 u -> C u) -> FDv C run ts d -> FDv C2 run ts d.
+Lemma FDv_sub (C C2 : list token -> Prop) run f ts d : (forall u, C2 u -> C u) -> FDv C run f ts d -> FDv C2 run f ts d.
 Proof.
-  intros S (pre & rem & E & Ed & H). exists pre, rem. split; [auto|]. split; [auto|].
+  intros S (pre & rem & E & Ed & N & H). exists pre, rem. split; [auto|]. split; [auto|]. split; [exact N|].
   intros Hne. destruct (H Hne) as [L|[B|(w & O & Hc)]]; auto.
   right; right. exists w. split; auto.
 Qed.
@@ -219,8 +239,9 @@ Lemma Via_ext_all ne C run run' f ts :
   (forall g y, run g y = run' g y) -> Via ne C run' f ts -> Via ne C run f ts.
 Proof.
   intros E. unfold Via. rewrite E.
-  assert (FD : forall d, FDv C run' ts d -> FDv C run ts d).
-  { intros d (pre & rem & Ets & Ed & H). exists pre, rem. split; [auto|]. split; [auto|].
+  assert (FD : forall d, FDv C run' f ts d -> FDv C run f ts d).
+  { intros d (pre & rem & Ets & Ed & N & H). exists pre, rem. split; [auto|]. split; [auto|].
+    split; [intros g rem' Hg S; rewrite E; apply N; auto|].
     intros Hne. destruct (H Hne) as [L|[B|(w & O & Hc)]]; auto.
     right; right. exists w. split; auto. intros u Cu. eapply EvOk_ext; [|apply Hc; auto]. intros; apply E. }
   destruct (run' f ts) as [a r0 [|d ds]| [|d ds]|]; auto.
@@ -233,8 +254,10 @@ Lemma Via_ext_head C run run' f ts :
   (forall g y, f <= g -> samehead ts y -> run g y = run' g y) -> Via true C run' f ts -> Via true C run f ts.
 Proof.
   intros E. unfold Via. rewrite (E f ts (le_n _) (samehead_refl _)).
-  assert (FD : forall d, FDv C run' ts d -> FDv C run ts d).
-  { intros d (pre & rem & Ets & Ed & H). exists pre, rem. split; [auto|]. split; [auto|].
+  assert (FD : forall d, FDv C run' f ts d -> FDv C run f ts d).
+  { intros d (pre & rem & Ets & Ed & N & H). exists pre, rem. split; [auto|]. split; [auto|].
+    split.
+    { intros g rem' Hg S. rewrite E; [apply N; auto|exact Hg|]. subst ts. apply samehead_app, S. }
     intros Hne. destruct (H Hne) as [L|[B|(w & O & Hc)]]; auto.
     right; right. exists w. split; auto. intros u Cu.
     destruct (Hc u Cu) as (g0 & a & R). exists (max g0 f), a. intros g Hg.
@@ -250,8 +273,9 @@ Lemma Via_cons ne' C run run' f t r w0 :
   (forall g x, run g (t :: x) = run' g x) -> FN C run' w0 -> Via ne' C run' f r -> Via true C run f (t :: r).
 Proof.
   intros E (O0 & H0). unfold Via. rewrite E.
-  assert (FD : forall d, FDv C run' r d -> FDv C run (t :: r) d).
-  { intros d (pre & rem & Ets & Ed & H). exists (t :: pre), rem. split; [subst r; reflexivity|]. split; auto.
+  assert (FD : forall d, FDv C run' f r d -> FDv C run f (t :: r) d).
+  { intros d (pre & rem & Ets & Ed & N & H). exists (t :: pre), rem. split; [subst r; reflexivity|]. split; [auto|].
+    split; [intros g rem' Hg S; rewrite <- app_comm_cons, E; apply N; auto|].
     intros _. destruct pre as [|t' pre'].
     - right; right. exists w0. split; auto. intros u Cu. destruct (H0 u Cu) as (g0 & a & R).
       exists g0, a. intros g Hg. cbn [app]. rewrite E. apply R; auto.
@@ -276,16 +300,21 @@ Qed.
 Lemma Via_ret ne (C : list token -> Prop) (a : A) f ts : ne = false -> Via ne C (fun _ x => POk a x []) f ts.
 Proof. intros ->. apply (Via_stop_ok _ _ a). reflexivity. Qed.
 
-(** a diagnostic at the first token: nothing to show *)
-Lemma Via_fail_now ne C run f ts d ds :
-  run f ts = PErr (d :: ds) -> d = diag_at ts (pd_kind d) -> Via ne C run f ts.
+(** a fatal diagnostic at the first token, decided by that token *)
+Lemma Via_fail_now ne C run f ts (k : pkind) :
+  (forall g y, samehead ts y -> run g y = PErr [diag_at y k]) -> Via ne C run f ts.
 Proof.
-  intros E Ed. unfold Via. rewrite E. exists [], ts. split; [reflexivity|]. split; [exact Ed|]. congruence.
+  intros E. unfold Via. rewrite (E f ts (samehead_refl _)). exists [], ts. split; [reflexivity|].
+  split; [rewrite pd_kind_diag_at; reflexivity|]. split; [|congruence].
+  intros g rem' _ S. cbn [app]. rewrite (E g rem' S). exact I.
 Qed.
-Lemma Via_len_now ne C run f ts (a : A) r d ds :
-  run f ts = POk a r (d :: ds) -> d = diag_at ts (pd_kind d) -> Via ne C run f ts.
+(** the same for a lenient one *)
+Lemma Via_len_now ne C run f ts (a : A) (k : pkind) :
+  (forall g y, samehead ts y -> run g y = POk a y [diag_at y k]) -> Via ne C run f ts.
 Proof.
-  intros E Ed. unfold Via. rewrite E. exists [], ts. split; [reflexivity|]. split; [exact Ed|]. congruence.
+  intros E. unfold Via. rewrite (E f ts (samehead_refl _)). exists [], ts. split; [reflexivity|].
+  split; [rewrite pd_kind_diag_at; reflexivity|]. split; [|congruence].
+  intros g rem' _ S. cbn [app]. rewrite (E g rem' S). exact I.
 Qed.
 
 (** ** The fuel index *)
@@ -293,8 +322,9 @@ Qed.
 Lemma Via_shift ne C run f ts : Via ne C (fun g => run (S g)) f ts -> Via ne C run (S f) ts.
 Proof.
   unfold Via.
-  assert (FD : forall d, FDv C (fun g => run (S g)) ts d -> FDv C run ts d).
-  { intros d (pre & rem & Ets & Ed & H). exists pre, rem. split; [auto|]. split; [auto|].
+  assert (FD : forall d, FDv C (fun g => run (S g)) f ts d -> FDv C run (S f) ts d).
+  { intros d (pre & rem & Ets & Ed & N & H). exists pre, rem. split; [auto|]. split; [auto|].
+    split; [intros g rem' Hg S0; destruct g as [|g']; [lia|]; apply N; [lia|exact S0]|].
     intros Hne. destruct (H Hne) as [L|[B|(w & O & Hc)]]; auto.
     right; right. exists w. split; auto. intros u Cu. destruct (Hc u Cu) as (g0 & a & R).
     exists (S g0), a. intros g Hg. destruct g as [|g']; [lia|]. apply R. lia. }
@@ -381,8 +411,9 @@ Lemma Via_bind {A B} neX neY (C' C : list token -> Prop) (X : nat -> list token 
 Proof.
   intros VX VY Sub (O0 & H0).
   (* a first diagnostic of [X] is the first diagnostic of the sequence *)
-  assert (FDl : forall d, FDv C' X ts d -> FDv C (fun g x => pbind (X g x) (Y g)) ts d).
-  { intros d (pre & rem & Ets & Ed & H). exists pre, rem. split; [auto|]. split; [auto|].
+  assert (FDl : forall d, FDv C' X f ts d -> FDv C (fun g x => pbind (X g x) (Y g)) f ts d).
+  { intros d (pre & rem & Ets & Ed & N & H). exists pre, rem. split; [auto|]. split; [auto|].
+    split; [intros g rem' Hg S; apply notclean_bind_l, N; auto|].
     intros Hne. destruct (H Hne) as [L|[Bd|(w & O & Hc)]]; auto.
     right; right. exists (w ++ w0). split; [apply online_app; auto|].
     intros u Cu. destruct (H0 u Cu) as (C'u & HY).
@@ -393,9 +424,12 @@ Proof.
   - (* X clean *)
     destruct VX as (p1 & Ets & Hne1 & R1).
     specialize (VY a r1 eq_refl (ex_intro _ p1 Ets)). unfold Via in VY.
-    assert (FDr : forall d, FDv C (fun g => Y g a) r1 d -> FDv C (fun g x => pbind (X g x) (Y g)) ts d).
-    { intros d (pre2 & rem & Er1 & Ed & H). exists (p1 ++ pre2), rem.
-      split; [subst ts r1; rewrite app_assoc; reflexivity|]. split; auto.
+    assert (FDr : forall d, FDv C (fun g => Y g a) f r1 d -> FDv C (fun g x => pbind (X g x) (Y g)) f ts d).
+    { intros d (pre2 & rem & Er1 & Ed & N & H). exists (p1 ++ pre2), rem.
+      split; [subst ts r1; rewrite app_assoc; reflexivity|]. split; [auto|].
+      split.
+      { intros g rem' Hg S. rewrite <- app_assoc.
+        rewrite R1; [apply notclean_bind_r, N; auto|exact Hg|]. left. subst r1. apply samehead_app, S. }
       intros Hne. destruct pre2 as [|t2 pre2'].
       - (* [Y] fails at once: complete it from nothing *)
         rewrite app_nil_r in *. right; right. exists w0. split; auto.
@@ -425,13 +459,13 @@ Qed.
 Lemma Via_consume (C : list token -> Prop) k pk f ts : Via true C (fun _ x => consume k pk x) f ts.
 Proof.
   destruct ts as [|t r].
-  - eapply Via_fail_now; [reflexivity|]. reflexivity.
+  - apply (Via_fail_now _ _ _ _ _ pk). intros g y S. same_head S. reflexivity.
   - destruct (tkind_eqb (tk t) k) eqn:E.
     + apply (Via_cons false C _ (fun _ x => POk t x []) f t r []).
       * intros g x. unfold Parser.consume. rewrite E. reflexivity.
       * apply FN_ret.
       * apply Via_ret. reflexivity.
-    + eapply Via_fail_now; [unfold Parser.consume; rewrite E; reflexivity|]. reflexivity.
+    + apply (Via_fail_now _ _ _ _ _ pk). intros g y S. same_head S. unfold Parser.consume. rewrite E. reflexivity.
 Qed.
 
 (** [consume_lenient] followed by a return *)
@@ -439,13 +473,13 @@ Lemma Via_lenient {A} (C : list token -> Prop) (a : A) k pk f ts :
   Via true C (fun _ x => let '(r2, ds) := consume_lenient k pk x in POk a r2 ds) f ts.
 Proof.
   destruct ts as [|t r].
-  - eapply Via_len_now; [reflexivity|]. reflexivity.
+  - apply (Via_len_now _ _ _ _ _ a pk). intros g y S. same_head S. reflexivity.
   - destruct (tkind_eqb (tk t) k) eqn:E.
     + apply (Via_cons false C _ (fun _ x => POk a x []) f t r []).
       * intros g x. unfold Parser.consume_lenient. rewrite E. reflexivity.
       * apply FN_ret.
       * apply Via_ret. reflexivity.
-    + eapply Via_len_now; [unfold Parser.consume_lenient; rewrite E; reflexivity|]. reflexivity.
+    + apply (Via_len_now _ _ _ _ _ a pk). intros g y S. same_head S. unfold Parser.consume_lenient. rewrite E. reflexivity.
 Qed.
 
 (** a parser followed by a pure function of its value *)
@@ -466,14 +500,128 @@ Proof.
   apply (FN_bind C C X (fun _ a r => POk (k a) r []) w0 []); [exact H|apply (FNw_ret C k)].
 Qed.
 
+(** ** Bracketed constructs: [X], then the closer, then [Z] *)
+
+Lemma via_then_close {A B} neX (C' C : list token -> Prop) (X : nat -> list token -> pres A) close pk
+    (Z : A -> nat -> token -> list token -> pres B) f r wX :
+  Via neX C' X f r -> FN C' X wX -> (forall u, C' (mk close :: u)) ->
+  (forall a paren r2, Via false C (fun g => Z a g paren) f r2) ->
+  (forall a t u, C u -> EvOk (fun g => Z a g t) u u) ->
+  Via true C (fun g x => pbind (X g x) (fun a r1 => pbind (consume close pk r1) (Z a g))) f r /\
+  FN C (fun g x => pbind (X g x) (fun a r1 => pbind (consume close pk r1) (Z a g))) (wX ++ [mk close]).
+Proof.
+  intros VX FX Hcl VZ HZ.
+  assert (FY : FNw C' C (fun g a r1 => pbind (consume close pk r1) (Z a g)) [mk close]).
+  { apply (FNw_consume C' C close pk Z (mk close) []); try reflexivity; [constructor| |].
+    - intros u _. apply Hcl.
+    - intros a t u Cu. apply HZ, Cu. }
+  split.
+  - rewrite <- (orb_true_r neX).
+    apply (Via_bind neX true C' C X (fun g a r1 => pbind (consume close pk r1) (Z a g)) f r [mk close]).
+    + exact VX.
+    + intros a r1 _ _.
+      apply (Via_bind true false C_any C (fun _ x => consume close pk x) (fun g => Z a g) f r1 []).
+      * apply Via_consume.
+      * intros paren r2 _ _. apply VZ.
+      * right. intros; exact I.
+      * split; [constructor|]. intros u Cu. split; [exact I|]. intros t. apply HZ, Cu.
+    + left. reflexivity.
+    + exact FY.
+  - apply (FN_bind C' C X (fun g a r1 => pbind (consume close pk r1) (Z a g)) wX [mk close]); assumption.
+Qed.
+
+
+(** ** Late diagnostics and a few more "from nothing" facts *)
+
+Lemma Via_cons_late {A} (C : list token -> Prop) (run run' : nat -> list token -> pres A) f t r :
+  lt = true -> (forall g x, run g (t :: x) = run' g x) ->
+  (forall g y, f <= g -> samehead r y -> run' g y = PErr [diag_at y PTooManyParams]) ->
+  Via true C run f (t :: r).
+Proof.
+  intros Hl E Er. unfold Via. rewrite E, (Er f r (le_n _) (samehead_refl _)).
+  exists [t], r. split; [reflexivity|]. split; [rewrite pd_kind_diag_at; reflexivity|]. split.
+  - intros g rem' Hg S. cbn [app]. rewrite E, (Er g rem' Hg S). exact I.
+  - intros _. left. split; [exact Hl|apply pd_kind_diag_at].
+Qed.
+
+Lemma FNw_of_FN {A B} (C' C : list token -> Prop) (Y : nat -> A -> list token -> pres B) w0 :
+  online w0 -> (forall a, FN C (fun g => Y g a) w0) -> (forall u, C u -> C' (w0 ++ u)) -> FNw C' C Y w0.
+Proof.
+  intros O HF HC. split; [exact O|]. intros u Cu. split; [apply HC, Cu|]. intros a. apply (HF a), Cu.
+Qed.
+
+Lemma FN_tok {B} (C : list token -> Prop) k pk (Z : nat -> token -> list token -> pres B) t0 wZ :
+  tk t0 = k -> tline t0 = eofl -> online wZ -> (forall t, FN C (fun g => Z g t) wZ) ->
+  FN C (fun g x => pbind (consume k pk x) (Z g)) (t0 :: wZ).
+Proof.
+  intros K0 L0 O HZ. split; [constructor; auto|]. intros u Cu.
+  destruct (HZ t0) as (_ & H). destruct (H u Cu) as (g0 & b & R). exists g0, b. intros g Hg.
+  cbn [app]. unfold Parser.consume. rewrite K0, tkind_eqb_refl, pb_ret. apply R, Hg.
+Qed.
+
+(** * The one-line variant: [ViaL] = [Via] for token lists on the end-of-input line *)
+
+Definition ViaL {A} (ne : bool) (C : list token -> Prop) (run : nat -> list token -> pres A) (f : nat) (ts : list token) : Prop :=
+  online ts -> Via ne C run f ts.
+
+Lemma ViaL_of {A} ne C (run : nat -> list token -> pres A) f ts : Via ne C run f ts -> ViaL ne C run f ts.
+Proof. intros V _. exact V. Qed.
+
+Lemma ViaL_bind {A B} neX neY (C' C : list token -> Prop) (X : nat -> list token -> pres A) (Y : nat -> A -> list token -> pres B) f ts w0 :
+  ViaL neX C' X f ts ->
+  (forall a r1, ViaL neY C (fun g => Y g a) f r1) ->
+  (neY = true \/ forall u, C u -> C' u) ->
+  FNw C' C Y w0 ->
+  ViaL (neX || neY) C (fun g x => pbind (X g x) (Y g)) f ts.
+Proof.
+  intros VX VY Sub FY O. apply (Via_bind neX neY C' C X Y f ts w0); auto.
+  intros a r1 _ (p & E). apply VY. subst ts. eapply online_app_r, O.
+Qed.
+
+Lemma ViaL_cons {A} ne' (C : list token -> Prop) (run run' : nat -> list token -> pres A) f t r w0 :
+  (forall g x, run g (t :: x) = run' g x) -> FN C run' w0 -> ViaL ne' C run' f r -> ViaL true C run f (t :: r).
+Proof. intros E F V O. eapply Via_cons; eauto. apply V. inversion O; auto. Qed.
+
+Lemma ViaL_ext_head {A} (C : list token -> Prop) (run run' : nat -> list token -> pres A) f ts :
+  (forall g y, f <= g -> samehead ts y -> run g y = run' g y) -> ViaL true C run' f ts -> ViaL true C run f ts.
+Proof. intros E V O. eapply Via_ext_head; eauto. Qed.
+Lemma ViaL_ext_all {A} ne (C : list token -> Prop) (run run' : nat -> list token -> pres A) f ts :
+  (forall g y, run g y = run' g y) -> ViaL ne C run' f ts -> ViaL ne C run f ts.
+Proof. intros E V O. eapply Via_ext_all; eauto. Qed.
+Lemma ViaL_shift {A} ne (C : list token -> Prop) (run : nat -> list token -> pres A) f ts :
+  ViaL ne C (fun g => run (S g)) f ts -> ViaL ne C run (S f) ts.
+Proof. intros V O. apply Via_shift, V, O. Qed.
+Lemma ViaL_weaken {A} ne (C : list token -> Prop) (run : nat -> list token -> pres A) f ts :
+  ViaL true C run f ts -> ViaL ne C run f ts.
+Proof. intros V O. apply Via_weaken, V, O. Qed.
+Lemma ViaL_sub {A} ne (C C2 : list token -> Prop) (run : nat -> list token -> pres A) f ts :
+  (forall u, C2 u -> C u) -> ViaL ne C run f ts -> ViaL ne C2 run f ts.
+Proof. intros S V O. eapply Via_sub; eauto. Qed.
+Lemma ViaL_map {A B} ne (C : list token -> Prop) (X : nat -> list token -> pres A) (k : A -> B) f ts :
+  ViaL ne C X f ts -> ViaL ne C (fun g x => pbind (X g x) (fun a r => POk (k a) r [])) f ts.
+Proof. intros V O. apply Via_map, V, O. Qed.
+
+(** [consume k] then [Z] *)
+Lemma ViaL_tok {B} ne (C : list token -> Prop) k pk (Z : nat -> token -> list token -> pres B) f ts wZ :
+  (forall t r1, ViaL ne C (fun g => Z g t) f r1) -> online wZ -> (forall t, FN C (fun g => Z g t) wZ) ->
+  ViaL true C (fun g x => pbind (consume k pk x) (Z g)) f ts.
+Proof.
+  intros VZ O HZ.
+  apply (ViaL_bind true ne C_any C (fun _ x => consume k pk x) Z f ts wZ).
+  - apply ViaL_of, Via_consume.
+  - exact VZ.
+  - right. intros; exact I.
+  - apply FNw_of_FN; auto. intros; exact I.
+Qed.
+
 End WithEof.
 
 (** the expression-level statements (no late parameter diagnostics) imply the
     statement-level ones *)
-Lemma FDv_late {A} eofl (C : list token -> Prop) (run : nat -> list token -> pres A) ts d :
-  FDv eofl false C run ts d -> FDv eofl true C run ts d.
+Lemma FDv_late {A} eofl (C : list token -> Prop) (run : nat -> list token -> pres A) f ts d :
+  FDv eofl false C run f ts d -> FDv eofl true C run f ts d.
 Proof.
-  intros (pre & rem & E & Ed & H). exists pre, rem. split; [auto|]. split; [auto|].
+  intros (pre & rem & E & Ed & N & H). exists pre, rem. split; [auto|]. split; [auto|]. split; [exact N|].
   intros Hne. destruct (H Hne) as [(L & _)|[B|W]]; [discriminate L|auto|auto].
 Qed.
 Lemma Via_late {A} eofl ne (C : list token -> Prop) (run : nat -> list token -> pres A) f ts :
